@@ -139,10 +139,12 @@ def mk_history(max_persist, kinds, per_label_config=False, tier='quick', timeout
                 n_log = len(store.log)   # reads of the derived Bus are checked by content above
             else:
                 raise AssertionError(kind)
-            reads_expected = []
+            # a label needs reading iff it was not loaded when the call started (the call holds on to the Frames that were
+            # loaded, also if one of them is evicted and re-admitted while the call proceeds)
+            loaded_before = list(lru.order)
+            reads_expected = [l for l in labels if l not in loaded_before]
             for l in labels:
-                if lru.access(l):
-                    reads_expected.append(l)
+                lru.access(l)
             new_reads = store.log[n_log:]
             trace.append([[r_[0] for r_ in new_reads], bus_state(env, bus)])
             loaded_ref = [l in lru.order for l in LABELS]
